@@ -38,7 +38,8 @@ class Scenario:
         m.domains.a = a
         m.domains.b = b
         self.inp = inp = Signal(2, name="inp")
-        self.ca = ca = Signal(2, name="ca")
+        # ca_init != 0 makes the comb-replacement process's output differ from its own initial value at time 0
+        self.ca = ca = Signal(2, name="ca", init=cfg.get("ca_init", 0))
         self.rb = rb = Signal(2, name="rb")
         self.x = x = Signal(2, name="x")
         self.y = y = Signal(3, name="y")
@@ -71,7 +72,7 @@ class Scenario:
                      rp.addr.eq(0)]
         return m
 
-    def run(self, sched, mutate=None):
+    def run(self, sched, mutate=None, rerun=False):
         from amaranth.sim import Simulator
         cfg = self.cfg
         with warnings.catch_warnings():
@@ -94,7 +95,8 @@ class Scenario:
                             ctx.set(pa, (v + 1) & 3)
 
                 async def comb_proc(ctx):
-                    # the reset values of ca, rb make pc's initial value (0) already consistent
+                    # with ca_init == 0 the initial values of ca, rb make pc's initial value (0) already consistent; otherwise the
+                    # guaranteed first wake-up of changed() at time 0 has to establish it
                     async for ca_v, rb_v in ctx.changed(ca, rb):
                         ctx.set(pc, ca_v & ~rb_v & 3)
                 sim.add_process(sync_proc)
@@ -115,6 +117,12 @@ class Scenario:
                 self.bound = isinstance(eng._processes, ChoiceSet) and len(eng._processes) >= 3
             try:
                 sim.run_until(period(cfg["horizon"]))
+                if rerun:
+                    # the same simulation restarted from the initial state: observations of the second run
+                    log, errs = [], []
+                    self.log, self.errs = log, errs
+                    sim.reset()
+                    sim.run_until(period(cfg["horizon"]))
             except Exception as ex:
                 errs.append(f"simulation raised {type(ex).__name__}: {ex}")
             if sched is not None:
@@ -237,7 +245,7 @@ def scenarios(quick):
                 if two and (si % 3):
                     continue
                 yield {"pa": pa, "fa": fa, "pb": pb, "fb": fb, "edge_b": eb, "scripts": (script, OTHER_TB) if two else (script,),
-                       "procs": (si + ci) % 2 == 0 or two, "horizon": 14}
+                       "procs": (si + ci) % 2 == 0 or two, "horizon": 14, "ca_init": (si + ci) % 3}
 
 
 def run_scenarios(task):
@@ -248,6 +256,10 @@ def run_scenarios(task):
         sc = Scenario(cfg)
         # conformance run: the unmodified engine (no interception) must give the default-order observation
         plain = sc.run(None)
+        again = sc.run(None, rerun=True)
+        if again != plain:
+            out["violations"].append({"sig": "sched:" + cfg_sig(cfg) + ":rerun-after-reset", "what": f"scenario {cfg}: the run repeated after Simulator.reset() "
+                                      f"differs from the first run: {first_diff(plain, again)}", "payload": {"cfg": cfg, "choices": [[]], "rerun": True}})
         st = explore(lambda s: sc.run(s), bound, max_runs=max_runs, only_funcs={"step_design", "commit"}, max_perm_items=PERM_ITEMS)
         outs = st["outcomes"]
         out["cov"]["scenarios"] += 1
@@ -310,7 +322,7 @@ def first_diff(o1, o2):
 
 
 def cfg_sig(cfg):
-    return f"a={cfg['pa']}/{cfg['fa']},b={cfg['pb']}/{cfg['fb']}{cfg['edge_b']},procs={int(cfg['procs'])},scripts={cfg['scripts']}"
+    return f"a={cfg['pa']}/{cfg['fa']},b={cfg['pb']}/{cfg['fb']}{cfg['edge_b']},procs={int(cfg['procs'])},ca0={cfg.get('ca_init', 0)},scripts={cfg['scripts']}"
 
 
 def run(rep):
@@ -326,7 +338,8 @@ def run(rep):
                "sync- and comb-replacement processes + 1-2 testbenches running every script of length<=2 (3) over {set, get, tick a/b with sample, delay 0/3, "
                "posedge, negedge, changed}; explored: every resolution of the iteration order of the ready-process set, the active-trigger set and the "
                "commit set with at most `deviation_bound` deviations from insertion order; states = executions run, transitions = choice points resolved; "
-               "traces_validated_against_impl = scenarios re-run on the unmodified engine")
+               "traces_validated_against_impl = scenarios re-run on the unmodified engine; every scenario is also repeated after Simulator.reset() and must "
+               "give the same observations; the initial value of ca rotates over 0..2 so that the comb-replacement process has to act at time 0")
     rep.setcov("exhaustive", rep.cov.get("capped", 0) == 0)
     rep.require(rep.cov.get("scenarios_with_real_choice", 0) > rep.cov.get("scenarios", 0) // 2, "choice points with >= 2 alternatives were observed")
     rep.require(rep.cov.get("schedules", 0) > 2 * rep.cov.get("scenarios", 1), "more than one schedule per scenario executed")
@@ -340,6 +353,10 @@ def replay(payload):
     for ch in payload["choices"]:
         outs.append(sc.run(Scheduler(ch, only_funcs={"step_design", "commit"}, max_perm_items=PERM_ITEMS)))
     res = []
+    if payload.get("rerun"):
+        first, again = sc.run(None), sc.run(None, rerun=True)
+        if first != again:
+            res.append("rerun after reset differs: " + first_diff(first, again))
     if len(outs) == 2 and outs[0] != outs[1]:
         res.append("order-dependent: " + first_diff(outs[0], outs[1]))
     for o in outs:
